@@ -17,6 +17,8 @@ type Gen struct {
 	Closure bool // closure-heavy weights (C02)
 	MapLit  bool // map/set literal heavy weights (C05)
 	NoTry   bool
+	// one in IllTyped typed positions is filled with an arbitrary expression (0 = default 10)
+	IllTyped int
 
 	scope   [][]string
 	nvar    int
@@ -118,7 +120,11 @@ func (g *Gen) texpr(d int, want string) N {
 	g.operand++
 	defer func() { g.operand-- }()
 	g.Budget--
-	if g.chance(10) || g.Budget <= 0 {
+	ill := g.IllTyped
+	if ill == 0 {
+		ill = 10
+	}
+	if g.chance(ill) || g.Budget <= 0 {
 		if g.Budget <= 0 {
 			return g.leafOf(want)
 		}
